@@ -233,9 +233,38 @@ hwloc__nolibxml_import_get_content(hwloc__xml_import_state_t state,
   if (!end)
     return -1;
 
-  length = (size_t) (end-buffer);
-  if (length != expected_length)
-    return -1;
+  /* unescape the content in place, it may only get shorter */
+  {
+    char *src = buffer, *dst = buffer;
+    while (src < end) {
+      if (*src == '&') {
+	if (!strncmp(src+1, "lt;", 3)) {
+	  *dst++ = '<'; src += 4;
+	} else if (!strncmp(src+1, "gt;", 3)) {
+	  *dst++ = '>'; src += 4;
+	} else if (!strncmp(src+1, "amp;", 4)) {
+	  *dst++ = '&'; src += 5;
+	} else if (!strncmp(src+1, "quot;", 5)) {
+	  *dst++ = '\"'; src += 6;
+	} else if (!strncmp(src+1, "#10;", 4)) {
+	  *dst++ = '\n'; src += 5;
+	} else if (!strncmp(src+1, "#13;", 4)) {
+	  *dst++ = '\r'; src += 5;
+	} else if (!strncmp(src+1, "#9;", 3)) {
+	  *dst++ = '\t'; src += 4;
+	} else {
+	  return -1;
+	}
+      } else {
+	*dst++ = *src++;
+      }
+    }
+    length = (size_t) (dst-buffer);
+    if (length != expected_length)
+      return -1;
+    *dst = '\0'; /* end of unescaped content */
+  }
+
   nstate->tagbuffer = end;
   *end = '\0'; /* mark as 0-terminated for now */
   *beginp = buffer;
@@ -666,8 +695,13 @@ hwloc__nolibxml_export_add_content(hwloc__xml_export_state_t state, const char *
   }
   ndata->has_content = 1;
 
-  res = hwloc_snprintf(ndata->buffer, ndata->remaining, "%s", buffer);
-  hwloc__nolibxml_export_update_buffer(ndata, res);
+  {
+    /* content may contain characters that are not allowed as is in XML (e.g. plain userdata) */
+    char *escaped = hwloc__nolibxml_export_escape_string(buffer);
+    res = hwloc_snprintf(ndata->buffer, ndata->remaining, "%s", escaped ? (const char *) escaped : buffer);
+    hwloc__nolibxml_export_update_buffer(ndata, res);
+    free(escaped);
+  }
 }
 
 static size_t
